@@ -33,7 +33,7 @@ assert subprocess.run("git -C /repo diff --quiet", shell=True).returncode == 0
 with open(os.path.join(SEEDED, "RESULTS.md"), "w") as f:
     f.write("# Checks run against each seeded change applied to /repo itself\n\n"
             "`git -C /repo apply seeded/<id>/patch.diff`, `./check <prop> --no-evidence`, `git -C /repo checkout -- .` "
-            "(tools/run_seeded.py).  Every row shows exit 1 except r4-C02-B (not caught, exit 0) and r5-C09-A (undecided, exit 2); DESIGN.md 8.5d / 8.5e explain why.\n\n| id | check | outcome |\n|---|---|---|\n")
+            "(tools/run_seeded.py).  Every row shows exit 1 except r4-C02-B (not caught, exit 0; DESIGN.md 8.5d explains why).\n\n| id | check | outcome |\n|---|---|---|\n")
     for r in rows:
         f.write("| %s | %s | %s |\n" % r)
 bad = [r for r in rows if not r[2].startswith("exit 1")]
